@@ -1,0 +1,284 @@
+//! Verification hooks. This module only exists under the cargo feature `verif_hooks`
+//! (off by default); without the feature nothing in this file is compiled and the crate is unchanged.
+//!
+//! The hooks are of four kinds:
+//!  - read-only accessors / snapshots (defined next to the structures they read),
+//!  - per-cache counters and gates ([`Instance`]),
+//!  - a per-cache event trace ([`Event`]),
+//!  - schedule points ([`Site`]): `Instance::point` calls an optional handler, which an external
+//!    harness may use to delay the calling thread. A thread may be delayed anywhere by the scheduler,
+//!    so a handler introduces no behaviour the unhooked code cannot show.
+//!
+//! All structures of one cache share one [`Instance`]. It is taken from a thread local at construction
+//! ([`install`] before `CacheD::new`), so no constructor signature changes.
+
+use std::cell::RefCell;
+use std::sync::Arc;
+use std::sync::atomic::{AtomicBool, AtomicU64, AtomicUsize, Ordering};
+
+use parking_lot::{Condvar, Mutex, RwLock};
+
+use crate::cache::command::CommandStatus;
+use crate::cache::types::{FrequencyEstimate, Weight};
+
+pub use crate::cache::lfu::doorkeeper::verif_api::VerifDoorKeeper;
+pub use crate::cache::lfu::frequency_counter::verif_api::{VerifFrequencyCounter, VerifRow};
+pub use crate::cache::lfu::tiny_lfu::verif_api::VerifTinyLFU;
+
+/// Places at which a thread can be delayed by a handler.
+#[derive(Copy, Clone, Debug, Eq, PartialEq, Hash)]
+#[repr(u8)]
+pub enum Site {
+    PutAfterExistenceCheck = 0,
+    UpsertAfterStoreUpdate,
+    UpsertBeforeSend,
+    DeleteAfterMarkDeleted,
+    ShutdownAfterFlag,
+    ShutdownAfterCommand,
+    ShutdownAfterPolicy,
+    ShutdownAfterTicker,
+    ShutdownAfterStoreClear,
+    ShutdownAfterPolicyClear,
+    SendBefore,
+    SendAfter,
+    WorkerAfterDequeue,
+    WorkerBeforeAcknowledge,
+    MaybeAddAfterSpaceCheck,
+    CreateSpaceLoop,
+    CacheWeightAddAfterInsert,
+    CacheWeightUpdateInEntry,
+    CacheWeightDeleteAfterRemove,
+    CacheWeightDeleteInLock,
+    SweeperBeforeRetain,
+    SweeperInRetain,
+    SweeperAfterRetain,
+    PoolAdd,
+    ConsumerLoop,
+    ReadAfterStore,
+}
+
+pub const SITES: usize = 26;
+
+/// One sampled key as seen by the eviction sampler.
+#[derive(Clone, Debug, Eq, PartialEq)]
+pub struct SampledKeyView {
+    pub id: u64,
+    pub weight: Weight,
+    pub estimate: FrequencyEstimate,
+}
+
+#[derive(Clone, Debug, Eq, PartialEq)]
+pub enum Event {
+    /// The command worker finished executing a queued command (before acknowledging it).
+    /// `ack` is the address of the command's acknowledgement (`Arc::as_ptr`), which the caller also holds.
+    Executed { ack: usize, kind: String, status: CommandStatus, begin: u64, end: u64, thread: u64 },
+    /// The worker acknowledged a command as ShuttingDown without running it.
+    Drained { ack: usize, stamp: u64 },
+    /// A command was placed in the queue (stamp taken after `send` returned).
+    Sent { ack: usize, kind: String, before: u64, after: u64 },
+    /// `maybe_add` started for a key.
+    AdmissionBegin { id: u64, weight: Weight, max_weight: Weight, space_left: Weight },
+    /// One iteration of the eviction loop: the sample (including the popped minimum), the incoming estimate,
+    /// the space available before this step and what was done.
+    AdmissionStep { id: u64, incoming_estimate: FrequencyEstimate, space_available: Weight, victim: Option<SampledKeyView>, rest_of_sample: Vec<SampledKeyView>, evicted: bool },
+    AdmissionEnd { id: u64, status: CommandStatus },
+    /// The sweeper evicted a key id.
+    Swept { id: u64, stamp: u64 },
+}
+
+/// A gate at which a background thread can be parked.
+pub struct Gate {
+    closed: Mutex<bool>,
+    condvar: Condvar,
+    waiting: AtomicUsize,
+}
+
+impl Gate {
+    fn new() -> Self { Gate { closed: Mutex::new(false), condvar: Condvar::new(), waiting: AtomicUsize::new(0) } }
+
+    pub fn close(&self) { *self.closed.lock() = true; }
+
+    pub fn open(&self) {
+        *self.closed.lock() = false;
+        self.condvar.notify_all();
+    }
+
+    /// Number of threads currently parked at the gate.
+    pub fn waiting(&self) -> usize { self.waiting.load(Ordering::Acquire) }
+
+    pub(crate) fn pass(&self) {
+        let mut closed = self.closed.lock();
+        if *closed {
+            self.waiting.fetch_add(1, Ordering::AcqRel);
+            while *closed { self.condvar.wait(&mut closed); }
+            self.waiting.fetch_sub(1, Ordering::AcqRel);
+        }
+    }
+}
+
+pub type Handler = Arc<dyn Fn(Site) + Send + Sync>;
+
+/// Per-cache hook state.
+pub struct Instance {
+    pub stamp: AtomicU64,
+    pub sweeps_started: AtomicU64,
+    pub sweeps_completed: AtomicU64,
+    pub access_batches_applied: AtomicU64,
+    pub access_records_applied: AtomicU64,
+    pub commands_executed: AtomicU64,
+    pub worker_gate: Gate,
+    pub consumer_gate: Gate,
+    pub sweeper_gate: Gate,
+    pub site_hits: [AtomicU64; SITES],
+    handler_installed: AtomicBool,
+    handler: RwLock<Option<Handler>>,
+    trace_enabled: AtomicBool,
+    trace: Mutex<Vec<Event>>,
+    panics: Mutex<Vec<String>>,
+    panicked: AtomicBool,
+}
+
+impl Instance {
+    pub fn new() -> Arc<Instance> {
+        Arc::new(Instance {
+            stamp: AtomicU64::new(1),
+            sweeps_started: AtomicU64::new(0),
+            sweeps_completed: AtomicU64::new(0),
+            access_batches_applied: AtomicU64::new(0),
+            access_records_applied: AtomicU64::new(0),
+            commands_executed: AtomicU64::new(0),
+            worker_gate: Gate::new(),
+            consumer_gate: Gate::new(),
+            sweeper_gate: Gate::new(),
+            site_hits: std::array::from_fn(|_| AtomicU64::new(0)),
+            handler_installed: AtomicBool::new(false),
+            handler: RwLock::new(None),
+            trace_enabled: AtomicBool::new(false),
+            trace: Mutex::new(Vec::new()),
+            panics: Mutex::new(Vec::new()),
+            panicked: AtomicBool::new(false),
+        })
+    }
+
+    /// Next value of the per-cache logical clock used to order events and harness observations.
+    pub fn next_stamp(&self) -> u64 { self.stamp.fetch_add(1, Ordering::AcqRel) }
+
+    pub fn set_handler(&self, handler: Option<Handler>) {
+        let installed = handler.is_some();
+        *self.handler.write() = handler;
+        self.handler_installed.store(installed, Ordering::Release);
+    }
+
+    pub fn enable_trace(&self, enabled: bool) { self.trace_enabled.store(enabled, Ordering::Release); }
+
+    pub fn take_trace(&self) -> Vec<Event> { std::mem::take(&mut *self.trace.lock()) }
+
+    pub fn tracing(&self) -> bool { self.trace_enabled.load(Ordering::Acquire) }
+
+    pub fn event(&self, event: Event) {
+        if self.trace_enabled.load(Ordering::Acquire) {
+            self.trace.lock().push(event);
+        }
+    }
+
+    #[inline]
+    pub fn point(&self, site: Site) {
+        if self.handler_installed.load(Ordering::Relaxed) {
+            self.site_hits[site as usize].fetch_add(1, Ordering::Relaxed);
+            let handler = self.handler.read().clone();
+            if let Some(handler) = handler { handler(site); }
+        }
+    }
+
+    /// Records that a thread belonging to this cache panicked (called from a panic hook set by the harness).
+    pub fn record_panic(&self, message: String) {
+        self.panics.lock().push(message);
+        self.panicked.store(true, Ordering::Release);
+    }
+
+    pub fn has_panicked(&self) -> bool { self.panicked.load(Ordering::Acquire) }
+
+    pub fn panics(&self) -> Vec<String> { self.panics.lock().clone() }
+}
+
+thread_local! {
+    static THREAD_TAG: u8 = 0;
+    static CURRENT: RefCell<Option<Arc<Instance>>> = RefCell::new(None);
+    static LAST_UPSERT_IN_PLACE: RefCell<Option<bool>> = RefCell::new(None);
+}
+
+/// A value unique to the calling thread while it lives.
+pub fn thread_tag() -> u64 { THREAD_TAG.with(|tag| tag as *const u8 as u64) }
+
+/// Makes `instance` the hook state of every cache structure constructed on this thread from now on,
+/// and of this thread itself (for panic attribution). `None` uninstalls.
+pub fn install(instance: Option<Arc<Instance>>) {
+    CURRENT.with(|current| *current.borrow_mut() = instance);
+}
+
+/// The instance installed on this thread, if any.
+pub fn installed() -> Option<Arc<Instance>> {
+    CURRENT.with(|current| current.borrow().clone())
+}
+
+/// The instance installed on this thread, or a fresh one that nobody observes.
+pub(crate) fn current() -> Arc<Instance> {
+    installed().unwrap_or_else(Instance::new)
+}
+
+pub(crate) fn set_last_upsert_in_place(in_place: bool) {
+    LAST_UPSERT_IN_PLACE.with(|last| *last.borrow_mut() = Some(in_place));
+}
+
+/// Whether the last `put_or_update` issued by this thread updated an existing entry in place (`Some(true)`)
+/// or fell back to a put (`Some(false)`). Reading clears the value.
+pub fn take_last_upsert_in_place() -> Option<bool> {
+    LAST_UPSERT_IN_PLACE.with(|last| last.borrow_mut().take())
+}
+
+/// A physical store entry.
+#[derive(Clone, Debug)]
+pub struct StoreEntryView<Key> {
+    pub key: Key,
+    pub id: u64,
+    pub expire_after: Option<std::time::SystemTime>,
+    pub soft_deleted: bool,
+}
+
+/// A charged weight entry.
+#[derive(Clone, Debug)]
+pub struct WeightEntryView<Key> {
+    pub id: u64,
+    pub key: Key,
+    pub hash: u64,
+    pub weight: Weight,
+}
+
+/// An entry of the expiry index.
+#[derive(Clone, Debug)]
+pub struct TtlEntryView {
+    pub id: u64,
+    pub expire_after: std::time::SystemTime,
+    pub shard: usize,
+}
+
+/// Physical state of a cache, read structure by structure (not atomically).
+#[derive(Clone, Debug)]
+pub struct Snapshot<Key> {
+    pub store: Vec<StoreEntryView<Key>>,
+    pub weights: Vec<WeightEntryView<Key>>,
+    pub ttl: Vec<TtlEntryView>,
+    pub weight_used: Weight,
+    pub max_weight: Weight,
+}
+
+/// Schedule points of the acknowledgement (`done` has three statements, `poll` three steps).
+#[derive(Copy, Clone, Debug, Eq, PartialEq, Hash)]
+pub enum AckSite {
+    /// before statement `n` (0, 1, 2) of `done()`; 3 = after the last one
+    Done(u8),
+    /// 0 = before taking the waker slot, 1 = after registering the waker (slot held), 2 = after reading the flag as set (slot held), 3 = about to return
+    Poll(u8),
+}
+
+pub type AckHandler = Arc<dyn Fn(AckSite) + Send + Sync>;
